@@ -18,6 +18,7 @@ and is checked against the implementation on every generated program by the clau
 `c05-intended-statement` (`intendedClauses`): reading the implementation's SQL with the reference
 lexer and parser gives the intended statement, modulo `normS`.
 -/
+import PqlModel.Spec.Sql.SameMeaning
 import PqlModel.Spec.CompileOracle
 namespace Pql.Intended
 open Pql Sql CompileOracle
@@ -283,12 +284,20 @@ def intendedClauses (src : Bytes) (params : List (Bytes × Bytes)) (impl : Strin
           if statementEq got want then []
           else if stmtsHaveKeywordFn parsed.1 then ["c01-keyword-function-name"]      -- known finding K4
           else
-            -- same chain of SELECTs with the same clauses: what differs is a scalar expression (C01)
-            (if statementSkeletonEq got want then ["c01-expression-differs"] else []) ++
-            -- everything but the CONTENT of a string / number literal is as intended: the value written
-            -- in PQL is not the value the SQL token decodes to (C04)
-            (if statementEqUpToLits got want then ["c04-literal-value-differs"] else []) ++
-            ["c05-intended-statement-differs"]
+            -- The intended statement is ONE correct output, not the only one: an equivalent arrangement (a WHERE
+            -- folded into the SELECT it filters, merged literal limits, another spelling of an expression)
+            -- violates nothing.  A difference is a failing input only if the two statements also EVALUATE
+            -- differently on a synthesised database (Sql.differOn); the clause names the property by what differs.
+            match Sql.differOn 12 got want with
+            | none => []
+            | some seed =>
+              let isJoin := (got.ctes.map (·.2) ++ [got.body]).any (·.join.isSome) || (want.ctes.map (·.2) ++ [want.body]).any (·.join.isSome)
+              -- same chain of SELECTs with the same clauses: what differs is a scalar expression (C01)
+              (if statementSkeletonEq got want then ["c01-expression-differs"] else []) ++
+              -- everything but the CONTENT of a string / number literal is as intended: the value written
+              -- in PQL is not the value the SQL token decodes to (C04)
+              (if statementEqUpToLits got want then ["c04-literal-value-differs"] else []) ++
+              [(if isJoin then "c03" else "c02") ++ "-result-differs-from-intended-statement synthdb=" ++ toString seed]
         | some _, none => ["c05-intended-statement-missing"]
         | none, _ => []          -- reported by c05-parse
   | _ => []
